@@ -917,9 +917,9 @@ class ModeSense(Format):
     def length_sites(self, v, b):
         if self.ten:
             base = 8 + len(b"".join(v["_block_descriptors"]))
-            return [(0, 2), (6, 2), (base + 1, 1)]
+            return [(0, 2), (6, 2)] + ([(base + 1, 1)] if base + 1 < len(b) else [])
         base = 4 + len(b"".join(v["_block_descriptors"]))
-        return [(0, 1), (3, 1), (base + 1, 1)]
+        return [(0, 1), (3, 1)] + ([(base + 1, 1)] if base + 1 < len(b) else [])
 
     def walk_modes(self, small=False):
         for key, st in MODE_PAGES.items():
